@@ -27,3 +27,26 @@ Theorem C07_wrapper_MM :
   forall (N : Num) cfg fuel (m n : multipolygon N) op,
   boolean cfg fuel (OpMulti m) (OpMulti n) op = boolean_operation cfg fuel m n op.
 Proof. exact boolean_MM. Qed.
+
+(** the clause on repeated consecutive vertices, in full, every instance: a ring in which a
+    (non-NaN) vertex is written twice in a row is processed exactly like the ring without the
+    repetition; operands that differ only by such repetitions, ring by ring ([poly_same], closed
+    under composition), give the same queue, store and boxes, hence the same run — identical
+    results, except that the bounding-box shortcut hands back each operand as written *)
+From GB Require Import Num FillQueue BoolOp Outcome Repeats.
+Theorem C07_repeated_vertex_same_processing :
+  forall (N : Num) (r r' : ring N), repeat1 N r r' -> ring_same N r r'.
+Proof. exact process_ring_repeat. Qed.
+
+Theorem C07_repeat1_unfold :
+  forall (N : Num) (l1 : list (pt N)) (p : pt N) (l2 : list (pt N)),
+  pt_eq p p = true -> repeat1 N (l1 ++ p :: l2) (l1 ++ p :: p :: l2).
+Proof. exact (fun N l1 p l2 H => rep_at N l1 p l2 H). Qed.
+
+Theorem C07_repeated_vertices_same_result :
+  forall (N : Num) (cfg : config) (fuel : nat) (A A' B B' : list (polygon N)) (op : Event.operation),
+  Forall2 (poly_same N) A A' -> Forall2 (poly_same N) B B' ->
+  (boolean_operation cfg fuel A' B' op = boolean_operation cfg fuel A B op)
+  \/ (boolean_operation cfg fuel A B op = Ok (trivial_result A B op) /\
+      boolean_operation cfg fuel A' B' op = Ok (trivial_result A' B' op)).
+Proof. exact boolean_operation_same. Qed.
